@@ -132,6 +132,12 @@ pub fn c14(out: &mut dyn Write, tier: &str, rng: &mut Rng, st: &mut Stats) {
             match k { 0 => format!("{}\\t{}", n, n), 1 => format!("\\{}", n), 2 => format!("{}\"q\"", n), 3 => format!("dir\\{}\n", n), 4 => format!("{} \t{{}}", n), _ => format!("{}\\\\", n) } } };
         let names_field = pf.vars.iter().map(|v| format!("{}:{}", hex(rename(v.name.as_ref()).as_bytes()), v.id)).collect::<Vec<_>>().join(",");
         if let Ok(bdd0) = eval_guarded(&pf) {
+            // every fourth diagram is what `-c` leaves of the answer (retain_choice_bottom_up in the formula's own
+            // environment): what is exported must still be one node per distinct sub-diagram
+            let bdd0 = if i % 4 == 1 {
+                st.hit("bdd.retained");
+                pf.env.retain_choice_bottom_up(bdd0, if i % 8 == 1 { TruthTableEntry::True } else { TruthTableEntry::False })
+            } else { bdd0 };
             // the same diagram over the renamed symbols, in an environment of its own
             let env2: rsbdd::bdd::BDDEnv<rsbdd::NamedSymbol> = rsbdd::bdd::BDDEnv::new();
             fn copy(env: &rsbdd::bdd::BDDEnv<rsbdd::NamedSymbol>, b: &BDD<rsbdd::NamedSymbol>, rn: &dyn Fn(&str) -> String) -> Rc<BDD<rsbdd::NamedSymbol>> {
@@ -151,12 +157,14 @@ pub fn c14(out: &mut dyn Write, tier: &str, rng: &mut Rng, st: &mut Stats) {
                 _ => format!("n_{:p}", Rc::as_ptr(&bdd)),
             }, &pn);
             let mut fields: Vec<String> = Vec::new();
+            let mut raws: Vec<String> = Vec::new();
             let mut bad = false;
             for flt in [TruthTableEntry::Any, TruthTableEntry::True, TruthTableEntry::False] {
                 let g = BDDGraph::new(&bdd, flt);
                 let mut buf: Vec<u8> = Vec::new();
                 let ok = guarded(std::panic::AssertUnwindSafe(|| g.render_dot(&mut buf))).is_ok();
                 let rendered = String::from_utf8_lossy(&buf).to_string();
+                raws.push(hex(&buf));
                 match (ok, read_dot(&rendered)) {
                     (true, Some(d)) => {
                         fields.push(d.nodes.iter().map(|(id, l)| format!("{}={}", rename_id(id, &pn), hex(l.as_bytes()))).collect::<Vec<_>>().join(","));
@@ -166,7 +174,12 @@ pub fn c14(out: &mut dyn Write, tier: &str, rng: &mut Rng, st: &mut Stats) {
                 }
             }
             let _ = bad;
-            writeln!(out, "C14|bdd|{}|{}|{}|{}", dump, root, names_field, fields.join("|")).unwrap();
+            // the raw text of the three exports and the address behind each number of the dump: the Lean side renders its
+            // own text (Model/DotBdd.lean) and reads the real one with the reader of Thm/C14D
+            let mut addrs: Vec<(usize, usize)> = pn.map.iter().map(|(a, n)| (*n, *a)).collect();
+            addrs.sort();
+            let addrs_field = addrs.iter().map(|(n, a)| format!("{}:{:x}", n, a)).collect::<Vec<_>>().join(",");
+            writeln!(out, "C14|bdd|{}|{}|{}|{}|{}|{}", dump, root, names_field, fields.join("|"), addrs_field, raws.join("|")).unwrap();
             // the same exports written by the binary (-d FILE with one filter, -p FILE), into files that already
             // exist and usually hold a longer earlier export: the file must then hold exactly the new graph
             if !exotic && i % 10 == 0 {
